@@ -169,6 +169,9 @@ func framingRun(b *FramingBeh) FramingRes {
 		o := offs[m.Atom-1]
 		g := binary.BigEndian.Uint32(mutated[o:])
 		binary.BigEndian.PutUint32(mutated[o:], lenClass(m.Cls, g))
+	case "wraphdr":
+		binary.BigEndian.PutUint32(mutated[0:], binary.BigEndian.Uint32(mutated[0:])+0x80000000)
+		binary.BigEndian.PutUint32(mutated[4:], binary.BigEndian.Uint32(mutated[4:])+0x80000000)
 	case "trail":
 		for i := 0; i < m.N; i++ {
 			mutated = append(mutated, byte(0xA5+i))
@@ -251,7 +254,7 @@ func framingRun(b *FramingBeh) FramingRes {
 				np := binary.BigEndian.Uint32(rb[0:])
 				ns := binary.BigEndian.Uint32(rb[4:])
 				vl := binary.BigEndian.Uint32(rb[8:])
-				res.Consistent = uint64(np)+uint64(ns) == uint64(vl)
+				res.Consistent = uint64(np)+uint64(ns) == uint64(vl) && bytes.Equal(rb[:8], mutated[:8])
 				if !res.Consistent {
 					res.Note = fmt.Sprintf("decoded witness: header nbPublic=%d nbSecret=%d, vector length %d", np, ns, vl)
 				}
